@@ -231,6 +231,99 @@ example : (Api.boot Demo.shape Demo.cfg Demo.ds ([] : List Demo.DU)).recfg detac
     (Api.boot Demo.shape { Demo.cfg with verbose := true } Demo.ds []).recfg detach := by
   rw [← Api.boot_recfg detach rfl, ← Api.boot_recfg detach rfl]; rfl
 
+/-! ## (b') `attachLogger` in mid-run -/
+
+/-- a step of a history in which `attachLogger(logger / nullptr)` calls are interleaved with the API operations -/
+inductive LOp
+  | op (o : Api.Op)
+  | attach (attached : Bool)
+
+def LOp.step (m : Mach U) : LOp → Mach U
+  | .op o => Api.step m o
+  | .attach a => m.attachLogger a
+
+def runL (m : Mach U) (l : List LOp) : Mach U := l.foldl LOp.step m
+
+/-- the same history with the `attachLogger` calls removed -/
+def LOp.plain : List LOp → List Api.Op
+  | [] => []
+  | .op o :: r => o :: LOp.plain r
+  | .attach _ :: r => LOp.plain r
+
+/-- `attachLogger` changes nothing but the attachment: seen with the logger detached, it is the identity. -/
+theorem attachLogger_detach (m : Mach U) (a : Bool) : (m.attachLogger a).recfg detach = m.recfg detach := by
+  simp [Mach.attachLogger, Mach.recfg, World.recfg, Config.recfg, detach]
+
+/-- `attachLogger` touches neither the tree nor any registry / queue / plan / history / stream field, nor the trace. -/
+theorem attachLogger_frame (m : Mach U) (a : Bool) :
+    (m.attachLogger a).root = m.root ∧ (m.attachLogger a).w.trace = m.w.trace ∧
+    (m.attachLogger a).w.requests = m.w.requests ∧ (m.attachLogger a).w.plans = m.w.plans ∧
+    (m.attachLogger a).w.previous = m.w.previous ∧ (m.attachLogger a).w.targets = m.w.targets ∧
+    (m.attachLogger a).w.ds = m.w.ds ∧ (m.attachLogger a).w.rng = m.w.rng ∧ (m.attachLogger a).w.err = m.w.err ∧
+    (m.attachLogger a).structActive = m.structActive ∧ (m.attachLogger a).activity = m.activity ∧
+    (m.attachLogger a).w.cfg.logging = a :=
+  ⟨rfl, rfl, rfl, rfl, rfl, rfl, rfl, rfl, rfl, rfl, rfl, rfl⟩
+
+/-- Whenever and however often the logger is attached or detached during a run (any operations, any number of
+`attachLogger` calls at any positions, any starting instance), the run is — apart from the logger records — the run
+of the logger-less instance over the same operations: same tree, report, queue, plans, statuses, history, control
+registers, streams and contract flag, same callbacks with the same observations in the same order. -/
+theorem attachLogger_noninterference_run (m : Mach U) (l : List LOp) :
+    (runL m l).recfg detach = Api.run (m.recfg detach) (LOp.plain l) := by
+  induction l generalizing m with
+  | nil => rfl
+  | cons x r ih =>
+    cases x with
+    | op o =>
+      show (runL (Api.step m o) r).recfg detach = Api.run (Api.step (m.recfg detach) o) (LOp.plain r)
+      rw [ih, logging_noninterference]
+    | attach a =>
+      show (runL (m.attachLogger a) r).recfg detach = Api.run (m.recfg detach) (LOp.plain r)
+      rw [ih, attachLogger_detach]
+
+/-- … hence two runs over the same operations that differ only in where the logger was (de)attached agree on
+everything but the records. -/
+theorem attachLogger_positions_irrelevant (m : Mach U) (l₁ l₂ : List LOp) (h : LOp.plain l₁ = LOp.plain l₂) :
+    (runL m l₁).recfg detach = (runL m l₂).recfg detach := by
+  rw [attachLogger_noninterference_run, attachLogger_noninterference_run, h]
+
+/-- Spelled out against the run without any `attachLogger` call. -/
+theorem attachLogger_noninterference_observables (m : Mach U) (l : List LOp) :
+    (runL m l).root = (Api.run m (LOp.plain l)).root ∧
+    (runL m l).w.trace.filter Event.isCb = (Api.run m (LOp.plain l)).w.trace.filter Event.isCb ∧
+    (runL m l).w.requests = (Api.run m (LOp.plain l)).w.requests ∧
+    (runL m l).w.plans = (Api.run m (LOp.plain l)).w.plans ∧
+    (runL m l).w.previous = (Api.run m (LOp.plain l)).w.previous ∧
+    (runL m l).w.targets = (Api.run m (LOp.plain l)).w.targets ∧
+    (runL m l).w.ds = (Api.run m (LOp.plain l)).w.ds ∧
+    (runL m l).w.rng = (Api.run m (LOp.plain l)).w.rng ∧
+    (runL m l).w.err = (Api.run m (LOp.plain l)).w.err ∧
+    (runL m l).structActive = (Api.run m (LOp.plain l)).structActive ∧
+    (runL m l).activity = (Api.run m (LOp.plain l)).activity := by
+  have h : (runL m l).recfg detach = (Api.run m (LOp.plain l)).recfg detach := by
+    rw [attachLogger_noninterference_run, logging_noninterference_run]
+  have hw := congrArg Mach.w h
+  have h1 := congrArg Mach.root h
+  have h2 := congrArg World.trace hw
+  have h3 := congrArg World.requests hw
+  have h4 := congrArg World.plans hw
+  have h5 := congrArg World.previous hw
+  have h6 := congrArg World.targets hw
+  have h7 := congrArg World.ds hw
+  have h8 := congrArg World.rng hw
+  have h9 := congrArg World.err hw
+  have h10 := congrArg Mach.structActive h
+  have h11 := congrArg Mach.activity h
+  refine ⟨h1, ?_, h3, h4, ?_, ?_, h7, h8, h9, h10, h11⟩
+  · simpa [Mach.recfg, World.recfg, detach] using h2
+  · simpa [Mach.recfg, World.recfg, detach] using h5
+  · simpa [Mach.recfg, World.recfg, detach] using h6
+
+-- non-vacuity: the demonstration machine, logger detached before the first update and re-attached after it
+example : (runL (Api.boot Demo.shape Demo.cfg Demo.ds ([] : List Demo.DU))
+      [.attach false, .op .update, .attach true, .op .update]).w.cfg.logging = true := by
+  decide +kernel
+
 /-! ## (c) the structure report -/
 
 /-- A freshly constructed (not yet activated) instance reports every state inactive — and that is right. -/
@@ -351,6 +444,8 @@ Property theorems (for Props/INDEX.json):
       api_request_logged, api_task_logged, random_resolution_logged
   (b) logging_noninterference, logging_noninterference_run, logging_noninterference_boot,
       logging_noninterference_observables, logging_modes_agree
+  (b') attachLogger_detach, attachLogger_frame, attachLogger_noninterference_run,
+      attachLogger_positions_irrelevant, attachLogger_noninterference_observables
   (c) structure_report_fresh, structure_report, structure_report_replay, structure_report_run,
       report_refreshed_at_most_once, refresh_enter, refresh_exit, refresh_reset, refresh_immediate,
       refresh_update, refresh_react, no_refresh_request, no_refresh_setTask, no_refresh_planAppend,
